@@ -1,0 +1,10 @@
+//go:build verif
+// +build verif
+
+package cmd
+
+import "github.com/massnetorg/mass-core/massutil"
+
+// VerifStringToAmount exposes the CLI amount reader stringToAmount to the verification harness
+// (/verif, engine `amt`, op `cli`). No logic of its own.
+func VerifStringToAmount(s string) (massutil.Amount, error) { return stringToAmount(s) }
